@@ -264,8 +264,8 @@ func TestC20(t *testing.T) {
 		}
 	}
 	r.exhaustive("single nodes: budgets 2..5 x every failure sequence x waits {1,2,5,10,25,50 ms, 1 h} x {no cancellation, deadline inside the wait after each attempt index} x 3 node kinds")
-	rapidPart(r, "rand-single", r.pick(1500, 25000), genC20Single, checkC20)
-	rapidPart(r, "rand-batch", r.pick(2500, 40000), genC20Batch, checkC20)
+	rapidPart(r, "rand-single", r.pick(1500, 80000), genC20Single, checkC20)
+	rapidPart(r, "rand-batch", r.pick(2500, 120000), genC20Batch, checkC20)
 }
 
 func init() { registerReplay("C20", checkC20) }
